@@ -145,10 +145,20 @@ Lemma resolves_enum : forall D n j r q fl p t fi,
 Proof. intros. unfold resolves, ref_resolves. cbn [f_type]. now apply resolves_local. Qed.
 
 (* scalar and key fields carry no reference *)
+Definition is_ref_item (i : ikind) : bool :=
+  match i with IObject _ | IOneof _ | IEnum _ => true | _ => false end.
 Definition is_ref_field (u : ufield) : bool :=
-  match uf_kind u with KObject _ | KOneof _ | KEnum _ => true | _ => false end.
+  match uf_kind u with
+  | KObject _ | KOneof _ | KEnum _ => true
+  | KArray i => is_ref_item i
+  | KMap i => is_ref_item i
+  | _ => false
+  end.
 Lemma resolves_ufield_scalar : forall D u, is_ref_field u = false -> resolves D (of_ufield u) = true.
-Proof. intros D [n [pt k|nm|nm|nm|p f t] r o] H; try reflexivity; discriminate. Qed.
+Proof.
+  intros D [n [pt k|nm|nm|nm|p f t|tn k|i|i] r o] H; try reflexivity; try discriminate;
+    destruct i; try reflexivity; discriminate.
+Qed.
 
 (* what the user's own object references must name for the file to convert *)
 Definition user_refs_ok (e : entity) (D : list (bool * bytes)) : bool :=
@@ -640,21 +650,21 @@ Theorem keys_in_declaration_order : forall e,
   map f_json (m_fields (keys_msg e)) = map (fun k => uf_name (k_def k)) (e_keys e).
 Proof.
   intros e. unfold keys_msg. cbn [m_fields]. rewrite map_map. apply map_ext.
-  intros [[n [pt k|nm|nm|nm|p f t] r o] s]; reflexivity.
+  intros [[n [pt k|nm|nm|nm|p f t|tn k|i|i] r o] s]; reflexivity.
 Qed.
 
 Theorem primary_keys_required : forall e f,
   In f (m_fields (keys_msg e)) -> f_primary f = true -> f_required f = true.
 Proof.
   intros e f Hf Hp. unfold keys_msg in Hf. cbn [m_fields] in Hf.
-  apply in_map_iff in Hf. destruct Hf as [[[n [pt k|nm|nm|nm|p fk t] r o] s] [<- _]]; cbn in *; try discriminate.
+  apply in_map_iff in Hf. destruct Hf as [[[n [pt k|nm|nm|nm|p fk t|tn k|i|i] r o] s] [<- _]]; cbn in *; try discriminate.
   subst p. apply orb_true_r.
 Qed.
 
 Definition primary_keys (e : entity) : list ufield := filter is_primary (map k_def (e_keys e)).
 
 Lemma primary_is_key : forall u, is_primary u = true -> is_key_field u = true.
-Proof. intros [n [pt k|nm|nm|nm|p f t] r o] H; try discriminate; reflexivity. Qed.
+Proof. intros [n [pt k|nm|nm|nm|p f t|tn k|i|i] r o] H; try discriminate; reflexivity. Qed.
 
 (* the primary keys are, in declaration order, among the Get/Events path keys ... *)
 Theorem get_keys_primary : forall e, filter is_primary (get_keys e) = primary_keys e.
@@ -1085,13 +1095,14 @@ Qed.
 Lemma ref_resolves_mono : forall D D' t,
   incl D D' -> ref_resolves D t = true -> ref_resolves D' t = true.
 Proof.
-  intros D D' t Hi H. unfold ref_resolves in *.
+  intros D D' t Hi.
   assert (L : forall (b : bool) n,
             existsb (fun d => Bool.eqb (fst d) b && bytes_eqb (snd d) n) D = true ->
             existsb (fun d => Bool.eqb (fst d) b && bytes_eqb (snd d) n) D' = true).
   { intros b n Hx. apply existsb_exists in Hx. destruct Hx as [d [Hd Hp]].
     apply existsb_exists. exists d. split; [now apply Hi|assumption]. }
-  destruct t as [pt k|p n|p n|p n]; [reflexivity| | |]; destruct p; try assumption; now apply L.
+  induction t as [pt k|p n|p n|p n|tn k|v IH]; intros H; cbn [ref_resolves] in *;
+    [reflexivity| | | |reflexivity|now apply IH]; destruct p; try assumption; now apply L.
 Qed.
 
 Lemma closed_app : forall a b, closed a = true -> closed b = true -> closed (a ++ b) = true.
